@@ -237,6 +237,16 @@ def _universe_src() -> str:
     L += ["class SOE_base:", "    __slots__ = ('a', 'b')", "class SOE(SOE_base):", "    __slots__ = ()", "    def __init__(self, a, b):", "        self.a = a", "        self.b = b",
           "    def __repr__(self):\n        return 'SOE(a=%r, b=%r)' % (self.a, self.b)", "MAKE['SOE'] = SOE"]
     _reg("SOE", "slots-only", "slots-only", "empty-leaf-slots")
+    # a slots-only subclass that RE-DECLARES a slot name of its base (legal, wasteful): every field once
+    L += ["class SOdup_base:", "    __slots__ = ('a', 'b')", "class SOdup(SOdup_base):", "    __slots__ = ('b', 'c')",
+          "    def __init__(self, a, b, c=5):", "        self.a = a", "        self.b = b", "        self.c = c",
+          "    def __repr__(self):\n        return 'SOdup(a=%r, b=%r, c=%r)' % (self.a, self.b, self.c)", "MAKE['SOdup'] = lambda a, b: SOdup(a, b)"]
+    _reg("SOdup", "slots-only", "slots-only", "redeclared-slot")
+    # an annotated plain class whose annotations cannot be resolved at run time (names imported for type checking only)
+    L += ["class PC_unres:", "    a: 'NotImportedAtRuntime'", "    CV: 'typing.ClassVar[NotImportedAtRuntime]' = 7", "    b: 'typing.Any'",
+          "    def __init__(self, a, b):", "        self.a = a", "        self.b = b",
+          "    def __repr__(self):\n        return 'PC_unres(a=%r, b=%r)' % (self.a, self.b)", "MAKE['PC_unres'] = PC_unres"]
+    _reg("PC_unres", "annotated-class", "annotated-class", "unresolvable-annotations")
     # slots spread over a chain of three classes (grandparent `a`, parent `b`, child `c`)
     L += ["class SO3_a:", "    __slots__ = ('a',)", "class SO3_b(SO3_a):", "    __slots__ = ('b',)", "class SO3(SO3_b):", "    __slots__ = ('c',)",
           "    def __init__(self, a, b, c=5):", "        self.a = a", "        self.b = b", "        self.c = c",
